@@ -36,6 +36,13 @@
 #define VERIF_FAMS ( 32 | 128 )
 #endif
 #define VERIF_CTLS ( 1 << ACT_CTL )
+#elif defined( SPACE_TREE )
+// -DTREE_SEL=k selects the selector / transformer variant (engine/tree.hpp)
+#define VERIF_K 3
+#define VERIF_GROUPS ( T::G_CORE | T::G_MUST | T::G_EXC | T::G_HOLE )
+#define VERIF_FAMS ( 1 | 2 )
+#define VERIF_CTLS 1
+#define VERIF_TREE
 #elif defined( SPACE_LIMITS )
 #define VERIF_K 3
 #define VERIF_GROUPS ( T::G_CORE | T::G_CONV | T::G_ATOM2 )
@@ -298,6 +305,35 @@ struct Space
          p.cfgs = cfg_product( { 7 }, { ACT_CTL }, { 1 }, { 1, 0 } );
 #endif
          phases.push_back( p );
+      }
+#elif defined( SPACE_TREE )
+      result_prop = "C12";
+      exc_prop = "C12";
+      check_actions = false;
+      {
+         Phase p;
+         p.name = "parse_tree_closed";
+         p.root = { CORE_OPS, "TC_RF", "TC_ANY_RF", "MUST" };
+         p.inner = { "ANY", "ONE_A", "EOF_", "SUCCESS", CORE_OPS, "TC_RF", "TC_ANY_RF", "MUST" };
+         p.N = 3;
+         p.L = thorough ? 4 : 3;
+         p.sigma = "ab";
+         p.act_may_throw = true;
+         p.dev_bound = thorough ? 2 : 1;
+         p.cfgs = cfg_product( { 0, 1 }, { 0 }, { 1 }, { 0 } );
+         phases.push_back( p );
+         Phase q;
+         q.name = "parse_tree_open";
+         q.root = { CORE_OPS, "TC_RF", "TC_ANY_RF" };
+         q.inner = { "HOLE", CORE_OPS, "TC_ANY_RF" };
+         q.N = 3;
+         q.L = 2;
+         q.Lmin = 2;
+         q.sigma = "x";
+         q.need_hole = true;
+         q.hole_may_throw = true;
+         q.cfgs = cfg_product( { 0 }, { 0 }, { 1 }, { 0 } );
+         phases.push_back( q );
       }
 #elif defined( SPACE_LIMITS )
       result_prop = "C18";
